@@ -46,6 +46,16 @@ CHECKS = {
           "Random schemas and schema-valid documents are mutated by 1-3 structural edits (undeclared keys, replaced/wrapped/removed nodes, id edits). Oracle: add_document Ok implies commit Ok and a later valid document through a fresh writer commits; a document violating a documented rule (independent validator in the harness) must be rejected at add_document. Tens of thousands of documents per quick run.",
           "Trusted: the harness's own reading of the documented schema rules (props/c15.rs schema_violation). Top-level keys that are dotted paths of declared nested leaves are not generated (README documents flattened dotted names).",
           "DESIGN.md §5 C15"),
+  "C18": ("exploration",
+          "property-based testing with the uncollapsed ranking of the same request as oracle",
+          "Tie-heavy corpora with a single-valued (or missing) group field over 1-4 segments, queries, filters, main sort plans, limits below and above the number of matches, candidate sizes and inner_hits {size, from, sort}: the collapsed response is judged against the same request without collapse: one hit per value, every hit is the best-ranked member of its group, groups form a prefix of the groups in ranking order, documents without the field never appear, total_groups within bounds (exact when the limit covers every match), inner hits are other members of the group in inner-sort order windowed by from/size (exact when the limit covers every match). One listed finding (pool cut before grouping) is matched by predicate.",
+          "Trusted: the uncollapsed response (checked by C10/C11). An inner sort using _score is only combined with a main sort that uses _score.",
+          "DESIGN.md §5 C18"),
+  "C19": ("exploration",
+          "property-based testing with a differential oracle (same request without rescore + standalone search for the rescore query)",
+          "Corpora, initial scored queries, rescore queries (optionally rejecting documents through min_score), window sizes 0..limit+5, all five score modes, limits and candidate sizes: the response must be the window survivors with the documented score combination, ordered by the new score, followed by the untouched tail (original scores, original order), truncated to limit.",
+          "Trusted: standalone bm25 searches on the same reader for the rescore scores; tolerance 1e-5 relative; windows larger than the guaranteed candidate pool are classified but not judged.",
+          "DESIGN.md §5 C19"),
   "C20": ("exploration",
           "metamorphic property-based testing (explain/profile off vs on)",
           "Requests over generated corpora (query, filter, sort plan, limit, execution strategy, optional aggregations, optional rescore, first or second page) are evaluated with (explain, profile) off and with the three other combinations: ids, order, scores, totals, cursors and aggregations must be equal, every hit must carry an explanation whose final_score equals its score, and profile must be present when asked. Three listed findings (one root cause: explain runs a separate execution path) are matched by predicate and excluded.",
